@@ -88,6 +88,12 @@ pub struct Config {
 }
 
 impl Config {
+    #[cfg(feature = "verif-hooks")]
+    #[inline]
+    pub(crate) fn verif_bytes_threshold(&self) -> usize {
+        self.bytes_threshold
+    }
+
     #[inline]
     const fn new() -> Self {
         Self {
